@@ -21,6 +21,8 @@ func runC05(c *Check, tier string) {
 	ruleR05d(c, "R05d")
 	// fail-fast only stops work that runs on the walker's context
 	ruleR18b(c, "R05e")
+	// the post-execution output checks that guard the completion really run, every one, every time
+	ruleR14d(c, "R05f")
 }
 
 // R05a: result written only on success
